@@ -617,7 +617,11 @@ class DateTime(Element):
 
             gmt_offset_hours = utils.TZS[tz_name]
 
-        return utils.gmt_offset(gmt_offset_hours, int(minutes or 0))
+        offset = utils.gmt_offset(gmt_offset_hours, int(minutes or 0))
+        # "-0.30": int("-0") == 0 loses the sign that gmt_offset() takes from the hours
+        if hours is not None and hours.startswith("-") and gmt_offset_hours == 0:
+            offset = -offset
+        return offset
 
     def normalize_to_gmt(self, value, gmt_offset):
         # Adjust timezone to GMT/UTC
